@@ -245,7 +245,10 @@ func (st *State) assumeWF(v Term, t types.Type) {
 	case *types.Slice:
 		st.assume("(wfslice " + v + ")")
 		st.assume("(<= (sptr " + v + ") " + st.alloc + ")")
-		st.assume("(<= (+ (soff " + v + ") (scap " + v + ")) 1152921504606846976)")
+		if sl, ok := t.Underlying().(*types.Slice); ok {
+			// a slice's backing store fits in the address space
+			st.assume(fmt.Sprintf("(<= (* (+ (soff %s) (scap %s)) %d) 281474976710656)", v, v, elemSize(sl.Elem())))
+		}
 	case *types.Interface:
 		st.assume("(wfiface " + v + ")")
 	case *types.Chan:
